@@ -65,6 +65,7 @@ pub fn main(tier: Tier, replay: Option<Value>) -> i32 {
     let file = work.join("cases.txt");
     std::fs::write(&file, cs.iter().map(|c| format!("{} {}\n", c.0, hex(&c.1))).collect::<String>()).expect("case file");
     let mut outputs: Vec<Vec<String>> = vec![];
+    let mut died: Vec<(String, String)> = vec![];
     let handles: Vec<_> = CONFIGS
         .iter()
         .map(|cfg| {
@@ -94,7 +95,8 @@ pub fn main(tier: Tier, replay: Option<Value>) -> i32 {
         match h.join().unwrap() {
             Ok((true, out)) => outputs.push(out.lines().map(|l| l.to_string()).collect()),
             Ok((false, out)) => {
-                run.machinery_error(format!("driver {cfg} failed: {}", crate::ev::truncate(&out, 300)));
+                // decided below: a driver that dies while the others finish is a difference between the builds
+                died.push((cfg.to_string(), out.lines().last().unwrap_or("").to_string()));
                 outputs.push(vec![]);
             }
             Err(e) => {
@@ -113,6 +115,17 @@ pub fn main(tier: Tier, replay: Option<Value>) -> i32 {
             return run.finish();
         }
     }
+    if !died.is_empty() {
+        if died.len() == CONFIGS.len() {
+            run.machinery_error(format!("all four drivers died: {:?}", died));
+        } else {
+            for (cfg, last) in &died {
+                let idx: usize = last.split(' ').next().and_then(|s| s.parse().ok()).map(|i: usize| i + 1).unwrap_or(0);
+                run.violation(Violation { identity: format!("died:{cfg}"), what: format!("the {cfg} build died (abort, stack overflow or out of memory) while other builds finished the same cases; its last output line was [{}], i.e. it died in case [{}]", crate::ev::truncate(last, 80), cs.get(idx).map(|c| c.2.clone()).unwrap_or("I/O shim closed systems".into())), replay: json!({"case": "died", "config": cfg}) });
+            }
+        }
+        return run.finish();
+    }
     if outputs.iter().any(|o| o.len() != cs.len() + 2) {
         run.machinery_error(format!("driver outputs have {:?} lines, expected {}", outputs.iter().map(|o| o.len()).collect::<Vec<_>>(), cs.len() + 2));
         return run.finish();
@@ -124,10 +137,11 @@ pub fn main(tier: Tier, replay: Option<Value>) -> i32 {
             run.machinery_error(format!("driver {cfg} reports [{}], expected [{want}]", o[0]));
         }
         let shim = &o[1];
-        let n: u64 = shim.split("cases=").nth(1).and_then(|s| s.split(' ').next()).and_then(|s| s.parse().ok()).unwrap_or(0);
+        // two closed systems on the line ("... || chunked sources: ..."); each reports cases= and mismatches=
+        let n: u64 = shim.split("cases=").skip(1).filter_map(|s| s.split(' ').next().and_then(|s| s.parse::<u64>().ok())).sum();
         run.add("evaluations", n);
         run.set(&format!("io_shim_cases_{cfg}"), n);
-        if !shim.contains("mismatches=0") {
+        if shim.matches("mismatches=0").count() != 2 || shim.matches("mismatches=").count() != 2 {
             run.violation(Violation { identity: format!("io_shim:{cfg}"), what: format!("the crate's Read/Write/Take in the {cfg} build differ from std::io: {}", crate::ev::truncate(shim, 500)), replay: json!({"case": "io shim", "config": cfg}) });
         }
     }
